@@ -34,9 +34,14 @@ Record pjob := mkPJob { pj_id : Z; pj_tasks : list ptask; pj_static : bool; pj_s
                         pj_one : list Z; pj_none : list Z; pj_group : option Z; pj_compat : option Z;
                         pj_xdem : list (list Z);
                         pj_orders : list Z   (* `order` of every task, task order; 0 = the task has no order *) }.
-(* sh_reloads: the reloads defined for this shift (location, duration, time windows, tag), in document order *)
+(* an OPTIONAL break of a vehicle shift: its alternative places (location, duration, tag; pl_loc = NOLOC: the place has no
+   location, the break is taken where the previous activity took place); every place carries the break's single `time` as its
+   only window; bk_offset: that window is an offset interval relative to the tour's departure time *)
+Record pbreak := mkPBreak { bk_places : list pplace; bk_offset : bool }.
+(* sh_reloads: the reloads defined for this shift (location, duration, time windows, tag), in document order;
+   sh_breaks: its optional breaks, in document order *)
 Record pshift := mkPShift { sh_start : Z; sh_earliest : Z; sh_latest : Z; sh_end : option (Z * Z) (* location, latest *);
-                            sh_reloads : list pplace }.
+                            sh_reloads : list pplace; sh_breaks : list pbreak }.
 Record pvtype := mkPVType {
   vt_id : Z; vt_vehicles : list Z; vt_shifts : list pshift; vt_cap : Z;
   vt_fixed : Z; vt_cd : Z; vt_ct : Z; vt_skills : list Z;
@@ -60,6 +65,9 @@ Inductive violation :=
 | PTasksAmbiguous (job : Z)       (* two tasks of one kind in a job share a location: activities cannot be attributed *)
 | PDuplicateJobId (job : Z)
 | PDiagonal                       (* matrix diagonal not zero / matrix size wrong *)
+| PRouting (tour : Z)             (* general routing data (Spec/ValidTD.v: several profiles / scale / time-dependent matrices):
+                                     no provider can be built (tour = -1), or a leg of the tour has no value or a non-integer
+                                     value at its departure time: outside the fragment in which equality is exact *)
 (* A: accounting (C02) *)
 | AJobLost (job : Z)              (* plan job neither in a tour nor unassigned *)
 | AJobDuplicated (job : Z)        (* in two tours, in a tour and unassigned, or twice unassigned *)
@@ -72,6 +80,7 @@ Inductive violation :=
 | AShiftTwice (tour : Z)          (* the vehicle shift of this tour already drives an earlier tour *)
 | AExtraActivity (tour : Z)       (* break / recharge / unknown activity that no shift of the fragment defines *)
 | AReload (tour : Z)              (* the reload activities of the tour are not DISTINCT reloads defined for its vehicle shift *)
+| ABreak (tour : Z)               (* the break activities of the tour are not DISTINCT breaks defined for its vehicle shift *)
 (* F: feasibility inputs (C01) *)
 | FNoTour (tour : Z)              (* the tour cannot be rebuilt: structure (departure first, arrival last iff the shift has an
                                      end), unknown job, or no place of the job's task matches location/duration/time *)
@@ -90,6 +99,15 @@ Inductive violation :=
 | FCapacityDim (tour : Z) (dim : Z)   (* the load exceeds the capacity in dimension dim >= 1 somewhere in the tour *)
 | FOrder (tour : Z)               (* task `order` (a hard rule unless a tour-order objective is given): a task is served after
                                      one with a higher order value, or a task without order before one with an order *)
+| FBreakPlace (tour : Z) (act : Z)  (* the break at flattened activity `act` is at a location that no place of a break of the
+                                     shift allows: a place with a location must be used there, a place without location where
+                                     the previous activity took place (with the place's duration and a window of the break) *)
+(* F, relations (Spec/Relations.v): pinning of the jobs named by a relation of the plan; rel = index of the relation *)
+| FRelVehicle (rel : Z)           (* a job of the relation is served by a tour of another vehicle shift, or (sequence / strict)
+                                     is not served at all *)
+| FRelOrder (rel : Z)             (* sequence / strict: the activities of the relation's jobs are not served in the listed order *)
+| FRelContiguous (rel : Z)        (* strict: another activity is served in between *)
+| FRelAnchor (rel : Z)            (* strict with `departure` / `arrival`: not directly behind the departure / before the arrival *)
 (* R: reproducibility (C03) *)
 | RNoReplay (tour : Z)            (* as FNoTour: nothing to replay *)
 | RArrival (tour : Z) (act : Z)   (* reported arrival at an activity (stop arrival / end of the previous activity) <> replay *)
@@ -196,7 +214,7 @@ Definition shift_of (P : pproblem) (t : stour) : option (pvtype * pshift) :=
 
 Definition same_shift (a b : stour) : bool := (to_vehicle a =? to_vehicle b) && (to_shift a =? to_shift b)%nat.
 Definition shift_key (t : stour) : Z * nat := (to_vehicle t, to_shift t).   (* the vehicle shift a tour is driven by *)
-Definition extra_kind (k : Z) : bool := negb (is_job_kind k || (k =? 10) || (k =? 11) || (k =? 13)).
+Definition extra_kind (k : Z) : bool := negb (is_job_kind k || (k =? 10) || (k =? 11) || (k =? 13) || (k =? 12)).
 
 (* reloads: every reload activity of a tour is one of the reloads defined for the tour's vehicle shift (same location,
    duration = reported service time, a window that explains the reported start), and no defined reload is used twice *)
@@ -219,6 +237,38 @@ Definition reloads_ok (P : pproblem) (t : stour) : bool :=
 Definition ReloadsDefined (P : pproblem) (t : stour) : Prop :=
   forall vt sh, shift_of P t = Some (vt, sh) -> Assign (reload_acts t) (sh_reloads sh).
 
+(* breaks: every break activity of a tour is one of the optional breaks defined for the tour's vehicle shift (a place of it with
+   the reported service time and - when the place has one - the reported location; the break's window, taken relative to the
+   tour's departure when it is an offset interval, explains the reported start), and no defined break is taken twice.
+   Where a place WITHOUT location may be used is a feasibility rule (group F, FBreakPlace), not an accounting one. *)
+Definition BREAK_JOB : Z := -12.      (* the job id a break activity is rendered with *)
+Definition NOLOC : Z := -1.           (* pl_loc of a break place without location *)
+Definition tour_dep (l : list fact) : Z := match l with d :: _ => fa_end d | [] => 0 end.   (* departure time of the tour *)
+Definition shift_tws (d : Z) (p : pplace) : pplace :=
+  mkPPlace (pl_loc p) (pl_dur p) (map (fun w => (fst w + d, snd w + d)) (pl_tws p)) (pl_tag p).
+Definition at_loc (l : Z) (p : pplace) : pplace := if pl_loc p =? NOLOC then mkPPlace l (pl_dur p) (pl_tws p) (pl_tag p) else p.
+(* the places of break b as absolute places for a tour that departs at dep, a place without location put at location l *)
+Definition break_places (dep l : Z) (b : pbreak) : list pplace :=
+  map (fun p => at_loc l (if bk_offset b then shift_tws dep p else p)) (bk_places b).
+Definition break_acts (t : stour) : list fact := filter (fun a => fa_kind a =? 12) (flat_tour t).
+Definition break_fits (dep : Z) (a : fact) (b : pbreak) : bool := existsb (reload_fits a) (break_places dep (fa_loc a) b).
+(* generic version of assign_b / Assign: every activity gets its own fitting item *)
+Fixpoint gassign_b {X} (fits : fact -> X -> bool) (acts : list fact) (avail : list X) : bool :=
+  match acts with
+  | [] => true
+  | a :: r => existsb (fun pr => fits a (fst pr) && gassign_b fits r (snd pr)) (picks avail)
+  end.
+Inductive GAssign {X} (fits : fact -> X -> bool) : list fact -> list X -> Prop :=
+| GAsNil avail : GAssign fits [] avail
+| GAsCons a r pre p post : fits a p = true -> GAssign fits r (pre ++ post) -> GAssign fits (a :: r) (pre ++ p :: post).
+Definition breaks_ok (P : pproblem) (t : stour) : bool :=
+  match shift_of P t with
+  | Some (_, sh) => gassign_b (break_fits (tour_dep (flat_tour t))) (break_acts t) (sh_breaks sh)
+  | None => true
+  end.
+Definition BreaksDefined (P : pproblem) (t : stour) : Prop :=
+  forall vt sh, shift_of P t = Some (vt, sh) -> GAssign (break_fits (tour_dep (flat_tour t))) (break_acts t) (sh_breaks sh).
+
 (* tours with the list of the tours before them *)
 Fixpoint tour_viols (P : pproblem) (k : Z) (before : list stour) (l : list stour) : list violation :=
   match l with
@@ -229,6 +279,7 @@ Fixpoint tour_viols (P : pproblem) (k : Z) (before : list stour) (l : list stour
     ++ (if existsb (same_shift t) before then [AShiftTwice k] else [])
     ++ (if existsb (fun a => extra_kind (fa_kind a)) (flat_tour t) then [AExtraActivity k] else [])
     ++ (if reloads_ok P t then [] else [AReload k])
+    ++ (if breaks_ok P t then [] else [ABreak k])
     ++ tour_viols P (k + 1) (before ++ [t]) r
   end.
 
@@ -260,10 +311,12 @@ Record Accounted (P : pproblem) (S : ssolution) : Prop := mkAccounted {
   acc_tour_shift : forall t, In t (sl_tours S) -> TourNamesShift P t;
   acc_tour_serves : forall t, In t (sl_tours S) -> job_acts t <> [];
   acc_shift_once : NoDup (map shift_key (sl_tours S));      (* no vehicle shift drives two tours *)
-  (* no shift of the supported fragment defines a break / recharge, so none may appear *)
+  (* no shift of the supported fragment defines a recharge, so none may appear (nor an activity of an unknown type) *)
   acc_no_extra : forall t a, In t (sl_tours S) -> In a (flat_tour t) -> extra_kind (fa_kind a) = false;
   (* every reload stop corresponds to a distinct reload defined for that very vehicle shift *)
-  acc_reloads : forall t, In t (sl_tours S) -> ReloadsDefined P t
+  acc_reloads : forall t, In t (sl_tours S) -> ReloadsDefined P t;
+  (* every break corresponds to a distinct break defined for that very vehicle shift *)
+  acc_breaks : forall t, In t (sl_tours S) -> BreaksDefined P t
 }.
 
 (* ================================================================== P: preconditions *)
@@ -305,8 +358,20 @@ Definition candidates (job : pjob) (a : fact) : list (ptask * pplace * (Z * Z)) 
 (* a reload activity (kind 13, rendered with job id RELOAD_JOB) is attributed to the pseudo job whose single task offers the
    reloads of the shift as its places *)
 Definition reload_job (sh : pshift) : pjob := mkPJob RELOAD_JOB [mkPTask 13 (sh_reloads sh) 0] true [] [] [] None None [] [].
+(* a break activity (kind 12, rendered with job id BREAK_JOB) is attributed to the pseudo job whose single task offers every
+   place of every break of the shift (offset windows already made absolute by abs_shift; a place without location is offered
+   at the activity's own location: whether it may be used there is FBreakPlace's question) *)
+Definition break_job (sh : pshift) (a : fact) : pjob :=
+  mkPJob BREAK_JOB [mkPTask 12 (flat_map (break_places 0 (fa_loc a)) (sh_breaks sh)) 0] true [] [] [] None None [] [].
+Definition abs_break (dep : Z) (b : pbreak) : pbreak :=
+  if bk_offset b then mkPBreak (map (shift_tws dep) (bk_places b)) false else b.
+(* the shift with the offset windows of its breaks made absolute for a tour that departs at dep *)
+Definition abs_shift (dep : Z) (sh : pshift) : pshift :=
+  mkPShift (sh_start sh) (sh_earliest sh) (sh_latest sh) (sh_end sh) (sh_reloads sh) (map (abs_break dep) (sh_breaks sh)).
 Definition job_for (P : pproblem) (sh : pshift) (a : fact) : option pjob :=
-  if fa_kind a =? 13 then (if fa_job a =? RELOAD_JOB then Some (reload_job sh) else None) else find_job P (fa_job a).
+  if fa_kind a =? 13 then (if fa_job a =? RELOAD_JOB then Some (reload_job sh) else None)
+  else if fa_kind a =? 12 then (if fa_job a =? BREAK_JOB then Some (break_job sh a) else None)
+  else find_job P (fa_job a).
 Definition match_act (P : pproblem) (sh : pshift) (a : fact) : option (pjob * ptask * pplace * (Z * Z)) :=
   match job_for P sh a with
   | None => None
@@ -331,8 +396,8 @@ Fixpoint match_all (P : pproblem) (sh : pshift) (l : list fact) : option (list (
               end
   end.
 
-Definition is_mid_kind (k : Z) : bool := is_job_kind k || (k =? 13).
-(* split the flattened tour into departure, job / reload activities, optional arrival *)
+Definition is_mid_kind (k : Z) : bool := is_job_kind k || (k =? 13) || (k =? 12).
+(* split the flattened tour into departure, job / reload / break activities, optional arrival *)
 Definition split_tour (has_end : bool) (l : list fact) : option (fact * list fact * option fact) :=
   match l with
   | [] => None
@@ -364,7 +429,7 @@ Definition rebuild (P : pproblem) (t : stour) : option rebuilt :=
     match split_tour has_end (flat_tour t) with
     | None => None
     | Some (d, js, e) =>
-      match match_all P sh js with
+      match match_all P (abs_shift (fa_end d) sh) js with
       | None => None
       | Some ms =>
         let start := mkAct (-1) (fa_loc d) 0 (sh_earliest sh) (sh_latest sh) dzero (fa_start d) (fa_end d) in
@@ -494,11 +559,14 @@ Definition tag_checks (k : Z) (ms : list (fact * (pjob * ptask * pplace * (Z * Z
   concat (mapi (fun i am => let '(a, (_, tk, _, _)) := am in
                             if existsb (opt_eqb (fa_tag a)) (fitting_tags tk a) then [] else [RTag k (i + 1)]) ms).
 
+(* the time spent in breaks is reported in the `break` part of the statistic and not in `serving` *)
+Definition is_break_act (a : act) : bool := a_job a =? BREAK_JOB.
+Definition replay_break (t : list act) : Z := sumz (map a_svc (filter is_break_act (tl t))).
 Definition replay_stat (P : pproblem) (vt : pvtype) (acts : list act) : sstat :=
   let dist := tour_legs (pdist P) acts in
   let dur := replay_duration (pdur P) acts in
   mkSStat (vt_fixed vt + dist * vt_cd vt + dur * vt_ct vt) dist dur
-          (tour_legs (pdur P) acts) (replay_serving acts) (replay_waiting (pdur P) acts) 0.
+          (tour_legs (pdur P) acts) (replay_serving acts - replay_break acts) (replay_waiting (pdur P) acts) (replay_break acts).
 
 Definition stat_checks (k : Z) (rep got : sstat) : list violation :=
   (if st_dist got =? st_dist rep then [] else [RStatDistance k])
@@ -640,9 +708,33 @@ Definition order_viol (P : pproblem) (k : Z) (t : stour) : list violation :=
 Definition order_viols (P : pproblem) (S : ssolution) : list violation := concat (mapi (order_viol P) (sl_tours S)).
 Definition Sorted (l : list Z) : Prop := forall l1 a l2 b l3, l = l1 ++ a :: l2 ++ b :: l3 -> a <= b.
 
+(* ---- break placement (vehicles.md: "If location of a break is omitted then break is stick to location of a job served
+        before break"): a break activity uses a place of a break of its shift - duration, a window (relative to the tour's
+        departure for an offset break) that explains the reported start - AT that place's location, or, for a place without
+        location, at the location of the previous activity of the tour.  (The break's time window itself is checked like a
+        job's: the rebuilt break activity carries it, FInfeasible.) *)
+Definition break_placed (sh : pshift) (dep prev : Z) (a : fact) : bool :=
+  existsb (fun b => existsb (reload_fits a) (break_places dep prev b)) (sh_breaks sh).
+Fixpoint bplace_viol (sh : pshift) (dep k i prev : Z) (l : list fact) : list violation :=
+  match l with
+  | [] => []
+  | a :: r => (if (fa_kind a =? 12) && negb (break_placed sh dep prev a) then [FBreakPlace k i] else [])
+              ++ bplace_viol sh dep k (i + 1) (fa_loc a) r
+  end.
+Definition break_place_viol (P : pproblem) (k : Z) (t : stour) : list violation :=
+  match shift_of P t, flat_tour t with
+  | Some (_, sh), d :: r => bplace_viol sh (fa_end d) k 1 (fa_loc d) r
+  | _, _ => []
+  end.
+Definition break_place_viols (P : pproblem) (S : ssolution) : list violation := concat (mapi (break_place_viol P) (sl_tours S)).
+Definition BreaksPlaced (P : pproblem) (t : stour) : Prop :=
+  forall vt sh l1 a b l2, shift_of P t = Some (vt, sh) -> flat_tour t = l1 ++ a :: b :: l2 -> fa_kind b = 12 ->
+    exists bk p, In bk (sh_breaks sh) /\ In p (break_places (tour_dep (flat_tour t)) (fa_loc a) bk) /\ reload_fits b p = true.
+
 (* group F, second part (C01) and group R, second part (C03) *)
 Definition xfeasible_viols (P : pproblem) (S : ssolution) : list violation :=
-  compat_viols P S ++ group_viols P S ++ reach_viols P S ++ dims_feasible_viols P S ++ order_viols P S.
+  compat_viols P S ++ group_viols P S ++ reach_viols P S ++ dims_feasible_viols P S ++ order_viols P S
+  ++ break_place_viols P S.
 Definition xreplay_viols (P : pproblem) (S : ssolution) : list violation := dims_replay_viols P S.
 
 (* ================================================================== the checker *)
